@@ -174,10 +174,12 @@ var gwOutside = []string{"histories longer than the bound that are not covered b
 
 func init() {
 	reg(&Spec{
-		ID: "C14", Pkgs: []string{"gateway", "util"},
-		Quick: func() []Inst { return gwInsts("quick") }, Thor: func() []Inst { return gwInsts("thorough") },
-		Asserts:      []string{"C14.only_plain_disconnect"},
-		Reach:        []string{"C14.disconnect_sent"},
+		ID: "C14", Pkgs: []string{"gateway", "util"}, LoopBound: 2000,
+		Quick: func() []Inst { return append(gwInsts("quick"), c13Insts(false)...) },
+		Thor:  func() []Inst { return append(gwInsts("thorough"), c13Insts(true)...) },
+		Subst:        map[string]string{"(*net.Dialer).DialContext": "github.com/energomonitor/bisquitt/gateway.vDialFail"},
+		Asserts:      []string{"C14.only_plain_disconnect", "C14.plain_disconnect_forwarded", "C14.no_mqtt_disconnect_on_other_termination"},
+		Reach:        []string{"C14.disconnect_sent", "C14.other_termination"},
 		Bounds:       gwBounds, Outside: gwOutside,
 		FrameCallees: []string{"(*github.com/energomonitor/bisquitt/gateway.handler1).mqttSend"},
 	})
@@ -296,5 +298,64 @@ func init() {
 			"C09.no_will_without_flag", "C09.willmsg_gets_connect", "C09.no_will_requests_without_flag", "C09.connack_mirrors_broker", "C09.connect_needs_client_connect"},
 		Reach:  []string{"C09.zero_keepalive", "C09.willtopicreq", "C09.willmsgreq", "C09.connect_sent", "C09.broker_connack"},
 		Bounds: c0809Bounds, Outside: []string{"longer histories"},
+	})
+}
+
+func init() {
+	reg(&Spec{
+		ID: "C10", Pkgs: []string{"gateway", "util"}, TimedNative: true, LoopBound: 1000, ValidateN: 5,
+		Quick: func() []Inst {
+			var out []Inst
+			for p := int64(0); p <= 6; p++ {
+				out = append(out, inst("gateway", "VH_C10_halfopen", p))
+			}
+			return append(out, inst("gateway", "VH_C10_answered", 0), inst("gateway", "VH_C10_answered", 3))
+		},
+		Asserts: []string{"C10.session_ends", "C10.no_panic", "C10.ends_within_timeout_plus_poll", "C10.broker_connection_closed", "C10.accepted_session_survives"},
+		Reach:   []string{"C10.reaped", "C10.survives"},
+		Bounds: map[string]string{
+			"session":  "the real handler1.run with mockupDialFunc, real snReceiveLoop / mqttReceiveLoop, real errgroup and context packages, channel-backed connections honouring read deadlines; virtual time",
+			"prefixes": "CONNECT; CONNECT(will); +WILLTOPIC; +WILLMSG; auth: CONNECT; auth: CONNECT+AUTH; CONNECT, 1 s, CONNECT; keep-alive, clean-session and will QoS symbolic; then silence of client and broker for 6 s of virtual time",
+			"control":  "a session whose CONNECT the broker accepts after 0 s / 3 s survives the next 7 s",
+		},
+		Outside: []string{"real-time slack of the Go scheduler and of socket deadlines (bounds are in virtual time)", "transports (pion/udp, DTLS)"},
+	})
+}
+
+func c13Insts(full bool) []Inst {
+	var out []Inst
+	for st := int64(0); st <= 4; st++ {
+		for cause := int64(0); cause <= 5; cause++ {
+			if cause == 4 && st != 0 {
+				continue
+			}
+			if cause == 1 && st == 0 {
+				continue // plain DISCONNECT before CONNECT: see C07's known finding
+			}
+			out = append(out, inst("gateway", "VH_C13_terminate", st, cause, 0))
+			if (st == 1 || st == 2 || st == 3) && (full || cause <= 2) {
+				out = append(out, inst("gateway", "VH_C13_terminate", st, cause, 1))
+			}
+		}
+	}
+	out = append(out, inst("gateway", "VH_C13_dialfail"))
+	return out
+}
+
+var c13Bounds = map[string]string{
+	"session": "the real handler1.run with real receive loops, errgroup, context; channel-backed connections with read deadlines; virtual time",
+	"states":  "disconnected, connecting (CONNECT forwarded, no CONNACK yet), active, asleep, awake - each reached through a real exchange (keep-alive 10 s, sleep 30 s)",
+	"causes":  "gateway shutdown, client plain DISCONNECT, broker closes the connection, undecodable datagram, illegal packet before CONNECT, undecodable broker bytes; with and without a broker PUBLISH QoS 1 in flight; dial failure (net.Dialer.DialContext substituted by a failing stub)",
+}
+
+func init() {
+	reg(&Spec{
+		ID: "C13", Pkgs: []string{"gateway", "util"}, TimedNative: true, LoopBound: 2000, ValidateN: 6,
+		Quick: func() []Inst { return c13Insts(false) }, Thor: func() []Inst { return c13Insts(true) },
+		Subst:   map[string]string{"(*net.Dialer).DialContext": "github.com/energomonitor/bisquitt/gateway.vDialFail"},
+		Asserts: []string{"C13.session_ends", "C13.no_panic", "C13.ends_within_poll_interval", "C13.broker_connection_closed_once", "C13.own_disconnect_answered_once", "C13.connected_client_gets_disconnect", "C13.no_disconnect_for_sleeping_or_unconnected", "C13.no_goroutine_left", "C13.dialfail_run_returns", "C13.dialfail_connack"},
+		Reach:   []string{"C13.ended"},
+		Bounds:  c13Bounds,
+		Outside: []string{"real-time slack of scheduler and sockets (bounds in virtual time)", "histories longer than the exchanges used to reach each state", "transports"},
 	})
 }
